@@ -93,6 +93,205 @@ def snippet(rnd: random.Random, tag: str, kind: str | None = None, long_cmd: str
     return {"kind": kind, "code": code, "labels": labels, "cmds": cmds, "K": 4 + 3 * nlines + waits}
 
 
+# ------------------------------------------------------------------------------------------------ generated snippets
+# Snippets drawn from the instruction set of the method generator: Blocks nested 1-3 levels (each ended by its own
+# `End block`, by a `Watch: <true> / End block` at the end of its body, or - a chain of blocks that all close at the
+# same place - by one `End blocks` of the innermost), Watch / Alarm inside and outside injected Blocks, macro
+# definitions with 0-2 calls, UOD commands, thresholds, Waits, Info/Warning, blank and comment lines.
+# What is NOT generated, because the engine's answer is a design choice or a recorded defect of another property and
+# not this statement's business: `End block(s)` that could end a block the snippet did not open; lines after an
+# `End blocks` in the blocks it ends (skipped by design); a Block in a Watch/Alarm/macro body (competes with the
+# snippet's own main path for 'innermost block', C05 / C41 findings); Watch/Alarm inside Alarm or macro bodies, macro
+# calls from interrupt bodies, UOD commands off the sequential path (C02/C04/C10 findings); calls of method macros.
+G_TRUE = "Run Counter >= 0"
+G_FALSE = "X = 7"                                   # the method generator simulates X in 0..5 only
+G_VAR = ("FT01 > 3 L/h", "FT01 > 1 L/h", "FT01 >= 5 L/h", "X = 2")
+G_THR = ("0.2", "0.5", "1", "0", "1.5")
+G_WAIT = ("0.1", "0.2", "0.3", "0", "0.5")
+GEN_KMAX = 84                                       # longest bound of one generated snippet (or of a group of 2-3)
+
+
+class _SnipGen:
+    def __init__(self, rnd: random.Random, tag: str, longs: list[str], shorts: list[str], max_depth: int):
+        self.r, self.tag = rnd, tag
+        self.longs, self.shorts = list(longs), list(shorts)
+        self.max_depth = max_depth
+        self.n = 0
+        self.lines: list[str] = []
+        self.seq: list[str] = []            # labels on the sequential path, in execution order (macro calls expanded)
+        self.atmost: list[str] = []         # labels in Watch bodies: at most once (the Block may end first)
+        self.never: list[str] = []          # labels in Watch/Alarm bodies whose condition is never true
+        self.rep: list[str] = []            # labels in Alarm bodies: any number of times
+        self.cmds: list[str] = []
+        self.blocks: list[str] = []
+        self.macros: dict[str, tuple[list[str], int]] = {}    # name -> (labels of the body, ticks of the body)
+        self.cost = 0                       # interpreter ticks the sequential path may need
+        self.depth_reached = 0
+        self.feat: set[str] = set()
+
+    def lab(self) -> str:
+        self.n += 1
+        return f"j{self.tag}_{self.n}"
+
+    def emit(self, ind: int, txt: str):
+        self.lines.append(" " * ind + txt)
+
+    # -- leaves; `to` = list that receives the labels, cost = whether the line lies on the sequential path
+    def leaf(self, ind: int, to: list[str], kinds: tuple[str, ...]) -> int:
+        r = self.r
+        k = r.choice(kinds)
+        if k == "uod_long" and not self.longs:
+            k = "mark"
+        if k == "uod_short" and not self.shorts:
+            k = "mark"
+        c = 3
+        if k == "mark":
+            lab = self.lab()
+            to.append(lab)
+            self.emit(ind, f"Mark: {lab}")
+        elif k == "thr":
+            v = r.choice(G_THR)
+            lab = self.lab()
+            to.append(lab)
+            self.emit(ind, f"{v} Mark: {lab}")
+            c += int(round(float(v) * 10)) + 1
+            self.feat.add("thr")
+        elif k == "wait":
+            v = r.choice(G_WAIT)
+            self.emit(ind, f"Wait: {v}s")
+            c += int(round(float(v) * 10))
+            self.feat.add("wait")
+        elif k == "info":
+            self.emit(ind, r.choice(["Info: hello", "Warning: careful"]))
+        elif k == "uod_long":
+            name = self.longs.pop()
+            self.cmds.append(name)
+            self.emit(ind, name)
+            self.feat.add("uod")
+        elif k == "uod_short":
+            name = self.shorts.pop()
+            self.cmds.append(name)
+            self.emit(ind, f"{name}: {r.choice('AB')}")
+            self.feat.add("uod")
+        return c
+
+    def interrupt_body(self, ind: int, to: list[str], n: int):
+        for _ in range(n):
+            self.leaf(ind, to, ("mark", "mark", "thr", "wait", "info"))
+
+    def stmt(self, ind: int, depth: int, last: bool, may_chain: bool) -> bool:
+        """One statement of a sequential body. Returns True if it was a Block that closes the enclosing blocks too
+        (`End blocks` chain) - then the caller must not emit a terminator of its own."""
+        r = self.r
+        kinds = ["mark", "mark", "thr", "wait", "uod_long", "uod_short", "info", "callmacro", "blank"]
+        if depth < self.max_depth:
+            kinds += ["block", "block", "block"] if depth else ["block", "block"]
+            kinds += ["watch", "alarm"]
+        if depth <= 1 and len(self.macros) < 2:
+            kinds.append("macro")
+        k = r.choice(kinds)
+        if k == "blank" and last:
+            k = "mark"
+        if k == "callmacro" and not self.macros:
+            k = "mark"
+        if k in ("mark", "thr", "wait", "uod_long", "uod_short", "info"):
+            self.cost += self.leaf(ind, self.seq, (k,))
+        elif k == "blank":
+            self.emit(ind, r.choice(["", "# c"]))
+            self.cost += 3
+            self.feat.add("blank")
+        elif k == "block":
+            chain = last and may_chain and depth >= 1 and r.random() < 0.5
+            self.block(ind, depth + 1, chain)
+            return chain
+        elif k in ("watch", "alarm"):
+            cond = r.choice([G_TRUE, G_TRUE, G_TRUE, G_FALSE] + [r.choice(G_VAR)])
+            self.emit(ind, f"{k.capitalize()}: {cond}")
+            to = self.never if cond == G_FALSE else self.atmost if k == "watch" else self.rep
+            self.interrupt_body(ind + 4, to, r.randint(1, 2))
+            self.cost += 3
+            self.feat.add(k + ("_in_block" if depth else "_at_root"))
+        elif k == "macro":
+            name = f"JM{self.tag}_{len(self.macros)}"
+            self.emit(ind, f"Macro: {name}")
+            labs: list[str] = []
+            c = 0
+            for _ in range(r.randint(1, 3)):
+                c += self.leaf(ind + 4, labs, ("mark", "mark", "thr", "wait", "info"))
+            self.macros[name] = (labs, c)
+            self.cost += 3
+            self.feat.add("macro")
+        elif k == "callmacro":
+            name = r.choice(sorted(self.macros))
+            self.emit(ind, f"Call macro: {name}")
+            labs, c = self.macros[name]
+            self.seq.extend(labs)
+            self.cost += 4 + c
+            self.feat.add("callmacro")
+        return False
+
+    def block(self, ind: int, depth: int, ends_all: bool):
+        """ends_all: this block is the last statement of its parent, and closes the parent (chain) with `End blocks`."""
+        r = self.r
+        name = f"jb{self.tag}_{len(self.blocks)}"
+        self.blocks.append(name)
+        self.depth_reached = max(self.depth_reached, depth)
+        self.emit(ind, f"Block: {name}")
+        self.cost += 4
+        n = r.randint(1, 3)
+        chained = False
+        for i in range(n):
+            chained = self.stmt(ind + 4, depth, last=(i == n - 1), may_chain=(depth == 1 or ends_all))
+        if chained:
+            self.feat.add("end_blocks_chain")
+            return                           # the nested block's `End blocks` ends this one as well
+        if ends_all:
+            self.emit(ind + 4, "End blocks")
+            self.feat.add(f"end_blocks_depth{depth}")
+        else:
+            t = r.choice(["End block"] * 5 + ["End blocks"] * (1 if depth == 1 else 0) + ["watch"])
+            if t == "watch":
+                self.emit(ind + 4, f"Watch: {G_TRUE}")
+                self.emit(ind + 8, "End block")
+                self.cost += 4
+                self.feat.add("block_ended_by_watch")
+            else:
+                self.emit(ind + 4, t)
+                self.feat.add(f"{t.lower().replace(' ', '_')}_depth{depth}")
+        self.cost += 4
+
+    def program(self, n: int):
+        for i in range(n):
+            self.stmt(0, 0, last=(i == n - 1), may_chain=False)
+
+
+def gen_snippet(rnd: random.Random, tag: str, longs=("Drive1", "Other"), shorts=("Mode",), kmax: int = GEN_KMAX,
+                want_nested: bool | None = None) -> dict:
+    """A generated snippet and what the statement says about it: `want` = label -> exact number of executions (lines on
+    the sequential path; a macro body counts once per call), `seq` = their order, `atmost` / `never` / `rep` = labels in
+    Watch bodies (<= 1), in bodies whose condition is never true (0), in Alarm bodies (not judged). K = bound in
+    interpreter ticks: 3 per line (as for the fixed kinds), Wait and threshold durations, 4 per Block start / end."""
+    if want_nested is None:
+        want_nested = rnd.random() < 0.6
+    for _ in range(200):
+        g = _SnipGen(rnd, tag, list(longs), list(shorts), max_depth=rnd.choice([2, 3, 3]))
+        g.program(rnd.randint(1, 4))
+        K = 4 + g.cost
+        if K > kmax or len(g.lines) > 16:
+            continue
+        if want_nested and g.depth_reached < 2:
+            continue
+        want: dict[str, int] = {}
+        for lab in g.seq:
+            want[lab] = want.get(lab, 0) + 1
+        for labs, _c in g.macros.values():          # body of a macro that is never called
+            g.never.extend(lab for lab in labs if lab not in want)
+        return {"kind": "gen", "code": "\n".join(g.lines), "labels": list(want), "want": want, "seq": list(g.seq),
+                "atmost": list(g.atmost), "never": list(g.never), "rep": list(g.rep), "cmds": list(g.cmds), "K": K,
+                "blocks": list(g.blocks), "depth": g.depth_reached, "feat": sorted(g.feat), "has_block": bool(g.blocks)}
+    raise RuntimeError("gen_snippet: no snippet within the size limits")
+
+
 def multi_snippets(rnd: random.Random, tag: str) -> tuple[list[dict], list[int]]:
     """2-3 snippets for one run with unique labels and pairwise different command names, plus the gaps (in engine ticks)
     between consecutive injections. At most one Block snippet (injected blocks compete for the block lock by design)."""
